@@ -879,6 +879,13 @@ func c46GPGClearsign(m *mon.M, ks *keyset) {
 		signer, verr := openpgp.CheckDetachedSignature(ks.pub, bytes.NewReader(b.Bytes), b.ArmoredSignature.Body)
 		if verr != nil {
 			wit["verify_err"] = verr.Error()
+			// Does gpg accept what it has just made? (It miscomputes a fraction of
+			// the private-key operations with RSA keys it imported with p > q, see C44.)
+			if own := ks.g.run(tGpgOps, msg, "--verify"); own.rc != 0 || !own.has("GOODSIG") {
+				m.Count("gpg_rejects_its_own_clearsign_output", 1)
+				m.Note("gpg rejects its own --clearsign output (signer " + k.name + "); case skipped")
+				return
+			}
 			m.Violation("gpg-clearsign-signature-does-not-verify-here", wit)
 			return
 		}
